@@ -98,6 +98,8 @@ where
                 Ok(p) => p,
                 Err(_) => return Outcome::pass(json!({"finalize": "Err"})),
             };
+            // the genuine proof is verified first (same thread), then the perturbed one
+            let _ = proof.verify(pk, &msg, y.clone()).is_ok();
             let (label, u, vv) = parts::<C>(&proof);
             let id = <C as Pairing>::Signature::identity();
             let (u2, v2) = match pert {
@@ -154,6 +156,8 @@ where
                 blsful::verif_hooks::set_virtual_now_ms(None);
                 return Outcome::fail(json!({"timestamp": p.timestamp}), "the proof is not stamped with the prover's clock in milliseconds");
             }
+            // the genuine proof is verified first, without a timeout (same thread, same instant)
+            let _ = p.verify(pk, &msg, None).is_ok();
             let (label, u, vv) = parts::<C>(&p.proof);
             let id = <C as Pairing>::Signature::identity();
             let (u2, v2) = match pert {
